@@ -92,7 +92,7 @@ def work_batch(pid: str, start: int, count: int, seed: int, tier: str, want_dige
     s = _new_summary()
     t_busy0 = time.monotonic()
     for index in range(start, start + count):
-        faulthandler.dump_traceback_later(120, exit=True)
+        faulthandler.dump_traceback_later(600, exit=True)
         try:
             traces = []
             for tape, o in unit_runs(mod, index, seed, tier):
